@@ -188,14 +188,20 @@ def cubic_extrema_1d(a, b, c, d):
     B = 2 * (q - p)
     C = p
     ts = []
-    if abs(A) < 1e-12:
-        if abs(B) > 1e-12:
+    scale = max(abs(p), abs(q), abs(r), 1e-30)
+    if abs(A) < 1e-12 * scale:
+        if abs(B) > 1e-12 * scale:
             ts.append(-C / B)
     else:
         disc = B * B - 4 * A * C
         if disc >= 0:
+            # numerically stable form: a degree-elevated quadratic with fractional coordinates
+            # has A ~ 1e-10 instead of 0, the textbook formula then cancels catastrophically
             s = math.sqrt(disc)
-            ts.extend([(-B + s) / (2 * A), (-B - s) / (2 * A)])
+            qq = -(B + (s if B >= 0 else -s)) / 2
+            if qq != 0:
+                ts.append(C / qq)
+            ts.append(qq / A)
     return [t for t in ts if 0 < t < 1]
 
 
